@@ -1,6 +1,6 @@
 (* C03 — the compiled reader is observationally equivalent to the interpreted reader. *)
 From Coq Require Import Lia.
-From VF Require Import Model.Reader Model.Writer Model.Compiler Proofs.ArrayProps Proofs.BlockProps Proofs.ShiftProps Proofs.CompilerProps Proofs.CompilerGaps Gen.GeneratedOk.
+From VF Require Import Model.Reader Model.Writer Model.Compiler Proofs.ArrayProps Proofs.BlockProps Proofs.ShiftProps Proofs.CompilerProps Proofs.CompilerGaps Proofs.CompilerStatic Gen.GeneratedOk.
 Open Scope string_scope. Open Scope list_scope. Open Scope Z_scope.
 
 (* The source generator of compiler.py is modelled in Model/Compiler.v: a PLAN (seek / align / reset / sub-reader / bit-field / block instructions)
@@ -72,6 +72,16 @@ Theorem compiled_aligned_reader_is_interpreted_reader : forall c fuel nm fs p,
   compile_plan c true fs = Ok p ->
   forall s pos ctx, 0 <= pos -> req (read_compiled c fuel true fs s pos) (read_ty c fuel (TStruct nm fs true) s pos ctx).
 Proof. exact compiled_aligned_is_interpreted. Qed.
+(* THE PROPERTY for structures with a STATIC layout, PACKED or ALIGNED (`stcls`: no set offsets, no bit fields; every member either a scalar / fixed
+   array of scalars of positive size, or a member with a reader of its own and a static size - nested structures and unions, arrays of them,
+   multi-dimensional arrays; in aligned mode alignments of at least 1): the generator reads the scalars in blocks with pad bytes for the alignment
+   gaps, seeks to every member that has its own reader and to the block after it (position_known), and in aligned mode seeks over the tail padding;
+   running that returns what the interpreted reader returns - the same object and end position - or both raise. *)
+Theorem compiled_static_reader_is_interpreted_reader : forall c fuel al nm fs p,
+  Forall (stcls c fuel al) fs -> NoDup (map f_name fs) -> (forall lay n, layout_struct c al fs = Ok lay -> l_size lay = Some n -> n <= 9223372036854775807) ->
+  compile_plan c al fs = Ok p ->
+  forall s pos ctx, 0 <= pos -> req (read_compiled c fuel al fs s pos) (read_ty c fuel (TStruct nm fs al) s pos ctx).
+Proof. exact compiled_static_is_interpreted. Qed.
 Theorem sub_readers_of_the_position_class_qualify : forall c fuel f, shift_ok [] c (f_ty f) = true -> (forall n, ty_size c (f_ty f) = Some n -> 0 <= n) -> sub_ok c fuel f.
 Proof. exact sub_ok_of_shift. Qed.
 
@@ -80,6 +90,7 @@ Print Assumptions generated_block_reads_memberwise.
 Print Assumptions compiled_reader_is_interpreted_reader.
 Print Assumptions padded_block_reads_memberwise.
 Print Assumptions compiled_aligned_reader_is_interpreted_reader.
+Print Assumptions compiled_static_reader_is_interpreted_reader.
 Print Assumptions block_unpack_is_fieldwise.
 Print Assumptions any_grouping_into_blocks_is_fieldwise.
 Print Assumptions fieldwise_is_the_interpreted_loop.
@@ -152,3 +163,31 @@ Example exa_run : let s := [1; 0; 0; 0; 2; 0; 0; 0; 255; 255; 65; 66; 67; 0; 0; 
   (exists v, read_compiled exc_cfg 50 true exa_fs (firstn 27 s) 0 = Ok (v, 32)) /\
   (exists er, read_compiled exc_cfg 50 true exa_fs (firstn 26 s) 0 = Err er) /\ (exists er, read_ty exc_cfg 50 (TStruct "m" exa_fs true) (firstn 26 s) 0 [] = Err er).
 Proof. cbv zeta. split; [vm_compute; reflexivity|]. split; [eexists; vm_compute; reflexivity|]. split; [eexists; vm_compute; reflexivity|]. split; eexists; vm_compute; reflexivity. Qed.
+
+(* an aligned structure with nested members: a nested aligned structure, an array of it, a two-dimensional array *)
+Definition exs_N := TStruct "N" [Fld "x" false (TPrim (PInt 1 false true) 1) None None; Fld "y" false (TPrim (PInt 4 false true) 4) None None] true.
+Definition exs_fs := [Fld "a" false (TPrim (PInt 1 false true) 1) None None; Fld "n" false exs_N None None; Fld "b" false (TPrim (PInt 2 false true) 2) None None;
+                      Fld "arr" false (TArr exs_N (LFixed 2)) None None; Fld "d" false (TArr (TPrim PChar 1) (LFixed 3)) None None;
+                      Fld "m" false (TArr (TArr (TPrim (PInt 1 false true) 1) (LFixed 2)) (LFixed 2)) None None; Fld "q" false (TPrim (PInt 8 false true) 8) None None].
+Example exs_class : Forall (stcls exc_cfg 50 true) exs_fs /\ NoDup (map f_name exs_fs) /\
+  (forall lay n, layout_struct exc_cfg true exs_fs = Ok lay -> l_size lay = Some n -> n <= 9223372036854775807) /\ exists p, compile_plan exc_cfg true exs_fs = Ok p.
+Proof.
+  split; [|split; [|split]].
+  - repeat (apply Forall_cons; [split; [reflexivity|]; split; [split; [reflexivity|];
+        first [ left; split; [vm_compute; discriminate|vm_compute; split; [reflexivity|discriminate]]
+              | right; split; [reflexivity|]; split; [reflexivity|]; split; [apply sub_ok_of_shift; [vm_compute; reflexivity|intros n H; vm_compute in H; injection H as <-; lia]|eexists; vm_compute; reflexivity] ]
+        | intros _; vm_compute; discriminate]|]).
+    apply Forall_nil.
+  - cbn. repeat constructor; cbn; intuition discriminate.
+  - intros lay n H. vm_compute in H. injection H as <-. cbn [l_size]. intros H. injection H as <-. lia.
+  - eexists. vm_compute. reflexivity.
+Qed.
+Example exs_plan : (do p <- compile_plan exc_cfg true exs_fs; Ok (skel p)) =
+  Ok [SBlock 1 [(1, "B")] true [("a", GData 0, 1)]; SSeek 4; SSub "n"; SSeek 12; SBlock 2 [(1, "H")] true [("b", GData 0, 2)]; SSeek 16; SSub "arr"; SSeek 32;
+      SBlock 3 [] false [("d", GBuf 0 3, 3)]; SSub "m"; SSeek 40; SBlock 8 [(1, "Q")] true [("q", GData 0, 8)]; SAlignTail].
+Proof. vm_compute. reflexivity. Qed.
+Example exs_run : let s := map Z.of_nat (seq 1 60) in
+  read_compiled exc_cfg 50 true exs_fs s 0 = read_ty exc_cfg 50 (TStruct "m" exs_fs true) s 0 [] /\
+  (exists v, read_compiled exc_cfg 50 true exs_fs s 0 = Ok (v, 48)) /\
+  (exists er, read_compiled exc_cfg 50 true exs_fs (firstn 47 s) 0 = Err er) /\ (exists er, read_ty exc_cfg 50 (TStruct "m" exs_fs true) (firstn 47 s) 0 [] = Err er).
+Proof. cbv zeta. split; [vm_compute; reflexivity|]. split; [eexists; vm_compute; reflexivity|]. split; eexists; vm_compute; reflexivity. Qed.
